@@ -333,6 +333,16 @@ def rule_own_lookup(ck):
     ck.clause('D3 (shared C08-D3: the active bins are counted, whichever position they are stored at)')
     c08.rule_binary_t(ck)
     c08.rule_public_binary(ck)
+    # the cell index and the magnitude index of one event stay paired (a shortened index array pairs them by storage position), and the
+    # rows of a forecast file are grouped by increasing catalog id, anything else rejected (a file in another row order must not load
+    # as another forecast)
+    from . import c03, c12
+    ck.clause('D1 (shared C03-D3: indices paired per event; shared C12-D1: rows grouped by increasing id or rejected)')
+    c03.rule_pairing(ck)
+    c12.rule_transitions_only(ck)
+    from . import c18
+    ck.clause('D3 (shared C18-D5: a region is rebuilt with its stored spacing, never with one inferred from the order of its cells)')
+    c18._rule_region_fromdict(ck)
 
 
 RULES = [rule_updates, rule_equivariance, rule_cells, rule_observation, rule_order_sources, rule_quantile_multiset, rule_own_lookup]
